@@ -47,6 +47,7 @@ func checkC16(w *World, r *Report) {
 	ruleDistributor(w, r, "C16")
 	ruleFormatExchange(w, r, "C16")
 	ruleInitChannel(w, r, "C16")
+	ruleSyncAPI(w, r, "C16")
 	ruleTerminalCancel(w, r, "C16", fi)
 	ruleTriggerCancels(w, r, "C16")
 	ruleDecorExchange(w, r, "C16")
